@@ -205,11 +205,11 @@ def part_lines(run):
 
 
 # ---- file level ------------------------------------------------------------------------------
-META_VARIANTS = [
-    dict(reference_index=None, genome_fasta=None, annotation_gtf=None),
-    dict(reference_index='/data/ref index/v=1', genome_fasta=None, annotation_gtf=None),
-    dict(reference_index=None, genome_fasta='/data/genome.fa', annotation_gtf='/data/anno=34.gtf'),
-]
+# every present / absent combination of the three reference lines (parseREDItools / parseCIRCexplorer write the
+# annotation alone, the index-based parsers the index alone, the others genome + annotation)
+META_VARIANTS = [dict(reference_index=ri, genome_fasta=gf, annotation_gtf=ag)
+                 for ri in (None, '/data/ref index/v=1') for gf in (None, '/data/genome.fa')
+                 for ag in (None, '/data/anno=34.gtf')]
 PARSER_OF = dict(SNV='parseVEP', INDEL_INS='parseVEP', INDEL_DEL='parseVEP', MNV='parseVEP', RES='parseREDItools',
                  Fusion='parseSTARFusion', Insertion='parseRMATS', Deletion='parseRMATS', Substitution='parseRMATS',
                  circ='parseCIRCexplorer')
